@@ -1048,7 +1048,12 @@ class ParserField:
                     return unprovided
 
             discriminator = value.get(self.discriminator)
-            if discriminator in self.discriminator_map:
+            try:
+                known = discriminator in self.discriminator_map
+            except TypeError:
+                # an unhashable discriminator value (a list, a dict) names no type
+                known = False
+            if known:
                 type = self.discriminator_map[discriminator]
                 # directly assign type instead parse it in a Logical context
             else:
